@@ -293,6 +293,19 @@ def add_guard_obligation(ctx: Ctx, rule: str):
                 isinstance(n.test.comparators[0], ast.Constant) and n.test.comparators[0].value in (0, 0.0)
             if always_raises:
                 guards.append(gid)
+                # what is raised is the ValueError the readers catch - building its message must not raise something else first.  The guard runs before
+                # the annotator is registered: a look-up of this call's annotator in the mapping is a KeyError for every annotator without units yet.
+                for r_ in [x for x in n.body if isinstance(x, ast.Raise) and isinstance(x.exc, ast.Call)]:
+                    for a_ in list(r_.exc.args) + [k.value for k in r_.exc.keywords]:
+                        for x in ast.walk(a_):
+                            if isinstance(x, ast.Subscript) and norm(x.value).startswith(f"{sn}."):
+                                ctx.bad(rule, f, r_, f"the message of the zero-length error reads `{norm(x)}`: the guard runs before the annotator is registered, so for an "
+                                        f"annotator without units yet this look-up raises KeyError and add() raises that instead of the ValueError its callers "
+                                        f"(from_csv's discard / reject handling) catch", key="guard-message")
+                            elif isinstance(x, (ast.Subscript, ast.BinOp)) and not isinstance(getattr(x, "op", None), (ast.Add, ast.Sub, ast.Mult, ast.Mod)) or \
+                                    (isinstance(x, ast.Call) and (dotted(x.func) or "?") not in ("str", "repr", "len", "round", "float", "int", "format", "type", "abs")):
+                                ctx.undecided(rule, f, r_, f"the message of the zero-length error evaluates `{norm(x)[:60]}`, which may itself raise before the ValueError is "
+                                              f"raised (not a verdict)", key="guard-message")
     # what `duration == 0` means is pyannote's: a segment no longer than SEGMENT_PRECISION (1e-6 unless someone changes it) has duration 0.  The
     # package itself must not move that threshold: done at import time it silently turns every shorter unit of every input into a rejected one
     for m_ in M.modules.values():
